@@ -489,18 +489,19 @@ impl snap_dataplane::dispatcher::Dispatcher for RecDispatcher {
     }
 }
 
-/// hand-encoded SCION/UDP packet: IPv4 hosts, empty path
-fn scion_udp(src: [u8; 4], dst: [u8; 4], sport: u16, dport: u16, pt: u8, payload: &[u8]) -> Vec<u8> {
+/// hand-encoded SCION/UDP packet: IPv4 destination, IPv4 (4 bytes) or IPv6 (16 bytes) source, empty or one-hop path
+fn scion_udp(src: &[u8], dst: [u8; 4], sport: u16, dport: u16, pt: u8, payload: &[u8]) -> Vec<u8> {
     let path: Vec<u8> = if pt == 2 { vec![0u8; 32] } else { vec![] };
-    let hdr = 12 + 16 + 8 + path.len();
+    let hdr = 12 + 16 + 4 + src.len() + path.len();
     let l4 = 8 + payload.len();
+    let st: u8 = if src.len() == 16 { 3 } else { 0 };
     let mut b = vec![0u8, 0, 0, 1, 17, (hdr / 4) as u8];
     b.extend_from_slice(&(l4 as u16).to_be_bytes());
-    b.extend_from_slice(&[pt, 0, 0, 0]);
+    b.extend_from_slice(&[pt, st, 0, 0]);
     b.extend_from_slice(&[0, 1, 0xff, 0, 0, 0, 1, 0x10]);
     b.extend_from_slice(&[0, 1, 0xff, 0, 0, 0, 1, 0x10]);
     b.extend_from_slice(&dst);
-    b.extend_from_slice(&src);
+    b.extend_from_slice(src);
     b.extend_from_slice(&path);
     b.extend_from_slice(&sport.to_be_bytes());
     b.extend_from_slice(&dport.to_be_bytes());
@@ -659,7 +660,7 @@ fn gateway(outp: &str) {
         macro_rules! through {
             ($step:expr, $src:expr, $pt:expr, $ver:expr) => {{
                 let tag = format!("<{}>", $step);
-                let mut dg = scion_udp($src, [10, 0, 0, 9], caddr.port(), 555, $pt, tag.as_bytes());
+                let mut dg = scion_udp(&$src[..], [10, 0, 0, 9], caddr.port(), 555, $pt, tag.as_bytes());
                 dg[0] |= $ver << 4;
                 let out = tunn.handle_outgoing_packet(Packet::copy_from(&dg[..]));
                 let mut ok = false;
@@ -675,7 +676,7 @@ fn gateway(outp: &str) {
         macro_rules! outbound {
             ($step:expr) => {{
                 let tag = format!("<{}>", $step);
-                let pkt = scion_udp([10, 0, 0, 9], ip4, 555, caddr.port(), 0, tag.as_bytes());
+                let pkt = scion_udp(&[10, 0, 0, 9], ip4, 555, caddr.port(), 0, tag.as_bytes());
                 let queued = {
                     use sciparse::core::view::View;
                     match sciparse::packet::view::ScionPacketView::try_from_slice(&pkt) {
@@ -738,6 +739,9 @@ fn gateway(outp: &str) {
         through!("authorised:spoofed-source", [10, 9, 9, 9], 0u8, 0u8);
         through!("authorised:onehop-path", ip4, 2u8, 0u8);
         through!("authorised:garbage", ip4, 0u8, 5u8);
+        // the peer's IPv4 address written as an IPv4-mapped IPv6 source (other family): not the peer's address
+        let twin: [u8; 16] = [0, 0, 0, 0, 0, 0, 0, 0, 0, 0, 0xff, 0xff, 127, 0, 0, 1];
+        through!("authorised:mapped-twin", twin, 0u8, 0u8);
         outbound!("authorised:outbound");
         drain!(300);
         let authorised_done = t0.elapsed().as_secs_f64();
